@@ -19,8 +19,9 @@ l) restart lists every segment directory the writer can produce: SegmentId::dir_
    all-digits test only and never on an exact-length comparison (segments of level >= 10 have longer names).
 j) every L0 id allocation site (next_for_level(0) feeding queue_for_flush) is control dependent on MemTable::is_full (segment-id / WAL-log-id lockstep).
 Not decided: crash points between steps, WAL replay vs published segment duplication, buffered WAL prefix semantics, fsync actually reaching disk.
+Borrowed: C18.a (the event id is assigned before the WAL entry is built: recovery then reproduces the ids reads de-duplicate by, which is what makes an event present in both an unpruned log and a segment count once).
 """
-FLOOR = 13
+FLOOR = 14
 REQUIRED = ["C01.a", "C01.b1", "C01.b2", "C01.c", "C01.d", "C01.e", "C01.f", "C01.g", "C01.h", "C01.i", "C01.j", "C01.k", "C01.l"]
 ASSUMPTIONS = ["tokio mpsc mailbox is FIFO", "WalHandle::append completing means the entry was handed to the WAL writer task"]
 
@@ -106,6 +107,8 @@ def run(ctx):
                 bad.append(("regenerate-id", "recovery overwrites an event id outside the is_zero branch", None))
         return bad
     ctx.run("C01.b2", "K7 PROV", "WalRecovery::replay_log_file", "recovered event = parsed WAL entry field by field; original id kept unless zero", b2)
+    # 'exactly once' after a restart rests on reads de-duplicating by event id: the id in the WAL entry must be the id stored (assigned before the WAL entry is built)
+    ctx.borrow("C18", ["C18.a"], "C01")
 
     # ------------------------------------------------------------------ c
     def c(inst):
